@@ -8,6 +8,7 @@ mapping, no poll after done, bounded liveness after done).
 """
 import copy
 import os
+import re
 import shutil
 import tempfile
 
@@ -21,8 +22,9 @@ GET_OP = "/google.longrunning.Operations/GetOperation"
 #   sync : OperationsClient.get_operation's default Retry retries UNAVAILABLE / DEADLINE_EXCEEDED;
 #   async: AsyncOperation passes its polling AsyncRetry (predicate: not-complete | 429 | 500 | 502) as
 #          the RPC's retry, so INTERNAL / RESOURCE_EXHAUSTED are polled through and UNAVAILABLE surfaces.
+#   rest : api-core's REST operations client retries ServiceUnavailable only (HTTP 503)
 POLL_ABSORBED = {"sync": {"UNAVAILABLE", "DEADLINE_EXCEEDED"}, "async": {"INTERNAL", "RESOURCE_EXHAUSTED"},
-                 "rest": {"UNAVAILABLE", "DEADLINE_EXCEEDED"}}
+                 "rest": {"UNAVAILABLE"}}
 # largest polling interval of api-core's default polling policy (sync: Retry 1 s x1.5 -> 20 s;
 # asyncio: AsyncRetry default 1 s x2 -> 60 s)
 MAX_POLL_INTERVAL = {"sync": 20.0, "async": 60.0, "rest": 20.0}
@@ -30,7 +32,7 @@ MAX_POLL_INTERVAL = {"sync": 20.0, "async": 60.0, "rest": 20.0}
 PROFILE = grammar.profile(
     lro_variants=True, p_lro=1.0, p_raw_op=0.25, p_list=0.15, p_get=0.4, p_create=0.1, p_update=0.1, p_delete=0.3,
     p_custom=0.1, p_sstream=0.0, p_cstream=0.0, p_bidi=0.0, p_service_config=0.6, p_second_file=0.6,
-    resources=(1, 3), transports=["grpc", "grpc", "grpc+rest"], p_google_api_ns=0.15,
+    resources=(1, 3), transports=["grpc", "grpc+rest", "grpc+rest"], p_google_api_ns=0.15,
     common_file_names=["resources", "resources", "common", "operation"])
 
 BUDGET = {
@@ -39,7 +41,8 @@ BUDGET = {
 }
 REQUIRED_PROBES = ["not_done_polls", "error_history", "response_history", "unimported_type", "fully_qualified_name",
                    "relative_name", "empty_response", "raw_operation", "poll_fault_retried", "poll_fault_surfaced",
-                   "initial_done", "async_future", "metadata_checked", "long_poll_over_60s", "concurrent_futures"]
+                   "initial_done", "async_future", "metadata_checked", "long_poll_over_60s", "concurrent_futures", "rest_future",
+                   "rest_polls"]
 ASSUMPTIONS = ["operation_info names that are relative AND nested (Outer.Inner) are excluded (DESIGN.md section 3)",
                "api-core's default polling policy (1 s x1.5 up to 20 s, 900 s budget) is the reference for liveness"]
 
@@ -78,13 +81,26 @@ def gen_scenarios(spec, rng, n):
     codec = protos.Codec(files)
     out = []
     for i in range(n):
-        client = rng.choice(["sync", "async", "async"])
-        nact = 1 if client == "sync" else rng.choice([1, 2, 3])
+        tr = spec["options"]["transport"]
+        client = rng.choice(["sync", "async", "async"] + (["rest", "rest"] if "rest" in tr else []))
+        if "grpc" not in tr:
+            client = "rest"
+        nact = 1 if client != "async" else rng.choice([1, 2, 3])
         actors = [{"start": 0.0 if a == 0 else rng.choice([0.0, 0.3, 2.0]), "ops": []} for a in range(nact)]
         nops = rng.randint(1, 2) if nact == 1 else nact
         for j in range(nops):
             fs, s, m = rng.choice(lm)
-            actors[j % nact]["ops"].append(gen_op(spec, rng, codec, fs, s, m, f"o{j}"))
+            if client == "rest" and not m.get("http"):
+                continue
+            op = gen_op(spec, rng, codec, fs, s, m, f"o{j}")
+            if client == "rest":
+                from . import c04
+                from .. import simhttp
+                c04._fill_path_vars(rng, op["request"], m, m["http"], "ok")
+                op["poll_script"] = {k: (v if v in simhttp.ROUND_TRIP else "UNAVAILABLE") for k, v in (op.get("poll_script") or {}).items()}
+                if "error" in (op.get("final") or {}) and op["final"]["error"]["code"] not in simhttp.ROUND_TRIP:
+                    op["final"]["error"]["code"] = rng.choice(simhttp.ROUND_TRIP)
+            actors[j % nact]["ops"].append(op)
         out.append({"client": client, "actors": [a for a in actors if a["ops"]],
                     "jitter_default": rng.choice([1.0, 1.0, 0.5, 0.75, 0.25])})
     return out
@@ -175,8 +191,12 @@ def server_factory(run):
         fs, s, m = find_method(spec, op["service"], op["method"])
         st = state.setdefault(op["id"], {"arrivals": 0, "t0": None})
         now = run.sim.history[-1]["t"]
-        if call["path"] != GET_OP:
-            if call["path"] not in run.world.rpc:
+        is_poll = call["path"] == GET_OP
+        if call.get("tr") == "rest":
+            import urllib.parse as _up
+            is_poll = call["verb"] == "GET" and "/operations/" in _up.urlsplit(call["url"]).path
+        if not is_poll:
+            if call.get("tr") != "rest" and call["path"] not in run.world.rpc:
                 return {"code": "UNIMPLEMENTED"}
             st["t0"] = now
             o = build_operation(codec, spec, op, m, fs["package"], op.get("initial_done"), 0)
@@ -236,7 +256,10 @@ def judge_op(spec, codec, scenario, op, evs, probes):
         return [{"rule": rule, "op": op["id"], "method": path, "msg": msg}]
 
     attempts = [e for e in evs if e["k"] == "attempt"]
-    if not attempts or attempts[0]["path"] != path:
+    rest = scenario["client"] == "rest"
+    if rest:
+        _bump(probes, "rest_future")
+    if not attempts or (not rest and attempts[0]["path"] != path):
         return V("initial_call", f"first attempt went to {attempts[0]['path'] if attempts else None}")
     ch0 = attempts[0]["ch"]
     polls = attempts[1:]
@@ -277,13 +300,26 @@ def judge_op(spec, codec, scenario, op, evs, probes):
     t_last_fault = None
     notdone = 0
     for a in polls:
-        if a["path"] != GET_OP:
-            return V("poll_wrong_path", f"poll went to {a['path']}, expected {GET_OP}")
-        if a["ch"] != ch0:
-            return V("poll_wrong_channel", f"poll went out on channel {a['ch']}; the method call used {ch0}")
-        req = codec.parse("google.longrunning.GetOperationRequest", bytes.fromhex(a["reqs"][0]))
-        if req.name != op["op_name"]:
-            return V("poll_wrong_name", f"poll asked for {req.name!r}, the operation is {op['op_name']!r}")
+        if rest:
+            import urllib.parse as _up
+            u0, u = _up.urlsplit(attempts[0]["url"]), _up.urlsplit(a["url"])
+            rule = next((r for r in ((spec.get("service_yaml") or {}).get("http") or {}).get("rules", [])
+                         if r["selector"] == "google.longrunning.Operations.GetOperation"), None)
+            want_path = None
+            if rule and "get" in rule:
+                want_path = re.sub(r"\{name=[^}]*\}", op["op_name"], rule["get"])
+            if a["verb"] != "GET" or _up.unquote(u.path) != want_path:
+                return V("poll_wrong_path", f"poll was {a['verb']} {a['url']}; the service YAML rule prescribes GET {want_path}")
+            if (u.scheme, u.netloc) != (u0.scheme, u0.netloc):
+                return V("poll_wrong_channel", f"poll went to host {u.netloc}; the method call used {u0.netloc}")
+        else:
+            if a["path"] != GET_OP:
+                return V("poll_wrong_path", f"poll went to {a['path']}, expected {GET_OP}")
+            if a["ch"] != ch0:
+                return V("poll_wrong_channel", f"poll went out on channel {a['ch']}; the method call used {ch0}")
+            req = codec.parse("google.longrunning.GetOperationRequest", bytes.fromhex(a["reqs"][0]))
+            if req.name != op["op_name"]:
+                return V("poll_wrong_name", f"poll asked for {req.name!r}, the operation is {op['op_name']!r}")
         if done_delivered:
             return V("poll_after_done", "GetOperation was called after a done operation had been delivered")
         if surfaced:
@@ -307,6 +343,8 @@ def judge_op(spec, codec, scenario, op, evs, probes):
             notdone += 1
     if notdone:
         _bump(probes, "not_done_polls", notdone)
+        if rest:
+            _bump(probes, "rest_polls", notdone)
 
     # ---- metadata reads
     def check_meta(e, idx):
